@@ -13,7 +13,7 @@ CLAIMS = {
          "(C01_refines); float/dual mixing = promotion for +,-,* and / in both operand positions (C01_mixed_eq_promoted, C01_mixed_div), owned = borrowed (C01_variants). "
          "Correspondence: thousands of random formulas inside the differentiable domain, close-float.",
     design_ref="DESIGN.md §3 C01",
-    note=_corr + "f64 rounding, glibc exp/log/pow, statrs Φ/Φ⁻¹ modelled not verified; mixed-operand theorems are first order (second order: correspondence).",
+    note=_corr + "f64 rounding, glibc exp/log/pow, statrs Φ/Φ⁻¹ modelled not verified; mixed-operand theorems: first order here, second order C02_mixed_eq_promoted.",
     technique="Lean 4 + Mathlib proof (structural induction, HasDerivAt) over hand-written model + differential correspondence"),
  "C02": dict(
     text="Lean 4 + Mathlib theorems over ℝ, a complete chain from the list-level code to real analysis: (1) the Dual2 chain "
@@ -24,12 +24,11 @@ CLAIMS = {
          "with name-indexed specifications of +,-,*,/,pow,exp,log,Φ,Φ⁻¹,abs,neg); hence (3) value, gradient and Hessian "
          "entries, diagonal and mixed, of the evaluated number are the true derivatives (C02_hessian_exact, "
          "C02_hessian_entries by polarisation) and the Hessian is symmetric (C02_symmetric); read-back doubles the stored "
-         "half (C02_readback); conversion down drops only the Hessian (C02_from_drops_only_hessian). Correspondence: "
+         "half (C02_readback); conversion down drops only the Hessian (C02_from_drops_only_hessian); a float on either side of + - * / equals the promoted constant to second order (C02_mixed_eq_promoted). Correspondence: "
          "random formulas, Hessian per name pair, symmetry/finite-derivative oracle restricted to formulas whose "
          "intermediate values are finite.",
     design_ref="DESIGN.md §3 C02",
-    note=_corr + "as C01: f64 rounding, libm, statrs Φ/Φ⁻¹ modelled not verified; float/Dual2 mixed operators are covered by "
-         "correspondence (the theorems use promoted constants).",
+    note=_corr + "as C01: f64 rounding, libm, statrs Φ/Φ⁻¹ modelled not verified.",
     technique="Lean 4 + Mathlib proof (second-order jet soundness + list-level refinement by induction) + differential correspondence with symmetry oracle"),
  "C03": dict(
     text="Lean 4 theorems over the list-level model of Vars::vars_cmp/to_new_vars/to_union_vars and the Dual +,-,*,== "
